@@ -290,6 +290,9 @@ def finish(module, res, tier, seed, wall):
         for h in res.harness_errors[:5]:
             sys.stderr.write('HARNESS ERROR: %s\n' % (json.dumps(_jsonable(h))[:3000],))
         return 2
+    if fresh and res.harness_errors:
+        sys.stderr.write('NOTE: %d case(s) could not be judged (oracle error, e.g. %s)\n' % (
+            len(res.harness_errors), json.dumps(_jsonable(res.harness_errors[0]))[:400]))
     if fresh:
         # one replay per distinct key, smallest (= earliest enumerated) first; cap the number of files
         seen = {}
